@@ -94,6 +94,88 @@ def pose_pair(c1, c2):
     return lambda pkg: run_obligation(pkg, fn)
 
 
+def sensitivity(kind):
+    """Q4 for numeric fields: replacing any single numeric component by an unrelated value must be able to make equals return
+    False (a component the comparison never looks at would compare equal whatever its value)."""
+    def fn(it):
+        n = 0
+        ida, idb = Poly.var("ida"), Poly.var("idb")
+
+        def must_see(build, what):
+            outs, raised, k = outcomes(it.pkg, build)
+            if raised is not None:
+                raise ObFail("%s: equals raises %s" % (what, raised[0]))
+            if False not in outs:
+                raise ObFail("%s: equals returns True on every path -- that component is not compared" % what)
+            return k
+        if kind == "pose":
+            for c in POSES:
+                L = len(sym_pose(c, "a").data)
+                for i in range(L):
+                    def build(i2, c=c, i=i):
+                        a = sym_pose(c, "a", unit=False)
+                        b = copy_pose(a)
+                        b.data[i] = Poly.var("other")
+                        return a, b
+                    n += must_see(build, "%s vs a copy whose component %d was replaced" % (c, i))
+                    n += must_see(lambda i2, build=build: tuple(reversed(build(i2))), "a copy with component %d replaced vs %s" % (i, c))
+        elif kind == "vertex":
+            for c in POSES:
+                L = len(sym_pose(c, "a").data)
+                for i in range(L):
+                    def build(i2, c=c, i=i):
+                        a = sym_pose(c, "a", unit=False)
+                        b = copy_pose(a)
+                        b.data[i] = Poly.var("other")
+                        return mk_vertex(i2, ida, a), mk_vertex(i2, ida, b)
+                    n += must_see(build, "Vertex[%s] vs a copy whose pose component %d was replaced" % (c, i))
+        else:
+            makers = [("EdgeOdometry[PoseSE2]", lambda i2: mk_odometry(i2, "PoseSE2", [ida, idb], "o")),
+                      ("EdgeOdometry[PoseSE3]", lambda i2: mk_odometry(i2, "PoseSE3", [ida, idb], "o")),
+                      ("EdgeLandmark[PoseSE2]", lambda i2: mk_landmark(i2, "PoseSE2", [ida, idb], "l", oid=Poly.var("id_o"))),
+                      ("EdgeLandmark[PoseSE3]", lambda i2: mk_landmark(i2, "PoseSE3", [ida, idb], "l", oid=Poly.var("id_o")))]
+            for label, mk in makers:
+                proto = mk(it)
+                fields = [("estimate", len(proto.fields["estimate"].data))]
+                if "offset" in proto.fields:
+                    fields.append(("offset", len(proto.fields["offset"].data)))
+                for fname, L in fields:
+                    for i in range(L):
+                        def build(i2, mk=mk, fname=fname, i=i):
+                            a = mk(i2)
+                            b = clone_edge(a)
+                            b.fields[fname].data[i] = Poly.var("other")
+                            return a, b
+                        n += must_see(build, "%s vs a copy whose %s component %d was replaced" % (label, fname, i))
+                k = proto.fields["information"].shape[0]
+                for r in range(k):
+                    for c2 in range(k):
+                        def build(i2, mk=mk, r=r, c2=c2):
+                            a = mk(i2)
+                            b = clone_edge(a)
+                            b.fields["information"].data[r][c2] = Poly.var("other")
+                            return a, b
+                        n += must_see(build, "%s vs a copy whose information[%d,%d] was replaced" % (label, r, c2))
+        return dict(explored=n, kind=kind)
+    return lambda pkg: run_obligation(pkg, fn)
+
+
+def custom_size_cases():
+    """Custom edges of one class whose array estimates / information matrices have different sizes: False, never an exception."""
+    def fn(it):
+        ids = [Poly.var("ida"), Poly.var("idb")]
+        n = 0
+
+        def cust(i2, tag, m, k):
+            e = Obj("BaseEdge", vertex_ids=list(ids), information=sym_symmetric("W" + tag, k), estimate=sym_vec("est" + tag, m), vertices=None)
+            return e
+        for (m1, k1), (m2, k2) in (((2, 2), (3, 3)), ((3, 3), (2, 2)), ((1, 1), (2, 2)), ((2, 1), (3, 2))):
+            n += judge(it.pkg, lambda i2: (cust(i2, "a", m1, k1), cust(i2, "b", m2, k2)), FALSE,
+                       "custom edge (estimate length %d, information %dx%d) vs custom edge (estimate length %d, information %dx%d)" % (m1, k1, k1, m2, k2, k2))
+        return dict(explored=n)
+    return lambda pkg: run_obligation(pkg, fn)
+
+
 def vertex_cases():
     def fn(it):
         n = 0
@@ -242,6 +324,12 @@ def run(run_, pkg, tier):
     bfn = pkg.method("BaseEdge", "equals")
     if run_.wants("C17/edge-fields"):
         tasks.append(("C17/edge-fields", "C17-Q4-field-coverage", edge_field_cases(), "%s:%d" % (bfn._gs_module, bfn.lineno)))
+    for kind, anchor in (("pose", bp), ("vertex", vfn), ("edge", bfn)):
+        key = "C17/sensitivity/%s" % kind
+        if run_.wants(key):
+            tasks.append((key, "C17-Q4-every-component-compared", sensitivity(kind), "%s:%d" % (anchor._gs_module, anchor.lineno)))
+    if run_.wants("C17/custom-sizes"):
+        tasks.append(("C17/custom-sizes", "C17-Q13-total-on-sizes", custom_size_cases(), "%s:%d" % (bfn._gs_module, bfn.lineno)))
     gfn = pkg.method("Graph", "equals")
     if run_.wants("C17/graph"):
         tasks.append(("C17/graph", "C17-Q4-graph", graph_cases(), "%s:%d" % (gfn._gs_module, gfn.lineno)))
